@@ -3,6 +3,8 @@ import Model.Vectored
 Line protocol of engine `vectored`:
   request:  `<len>,<len>,... <resp> <resp> ...`   resp ∈ `o<n>` | `i` | `e`;  `-` for an empty buffer list
   reply:    `<outcome> <number of accepted bytes> <calls> <slice lengths offered at each call a,b/c,d/… or ->`
+  request:  `E <line;line;…> <resp>…` (entry level, `Vectored.writeLines`); `S <entry> <entry> … | <resp>…` (stream level,
+            `Vectored.writeEntries`); reply per entry `<outcome> <accepted> <calls> <lines done> <offered>`, joined by ` ; `
 (that the accepted bytes are exactly the first `n` bytes of the concatenation is theorem `c16_prefix`;
 the harness checks the same of the implementation against the unfaulted output).
 -/
@@ -21,17 +23,44 @@ def parseResp (s : String) : Option Resp :=
 def outcomeStr : Outcome → String
   | .ok => "ok" | .writeZero => "writezero" | .ioErr => "ioerr" | .panic => "panic" | .exhausted => "exhausted"
 
+def parseLens (s : String) : Option (List Nat) :=
+  if s == "-" then some [] else (s.splitOn ",").mapM (·.toNat?)
+
+/-- an entry: lines separated by `;`, each line a `,`-separated list of slice lengths; `~` = no line -/
+def parseEntry (s : String) : Option Entry :=
+  if s == "~" then some [] else ((s.splitOn ";").mapM parseLens).map (·.map mkBufs)
+
+def offeredStr (off : List (List Bytes)) : String :=
+  let t := "/".intercalate (off.map fun sl => ",".intercalate (sl.map fun b => toString b.length))
+  if t.isEmpty then "-" else t
+
+def entryStr (r : EntryResult) : String :=
+  s!"{outcomeStr r.outcome} {r.accepted.length} {r.calls} {r.linesDone} {offeredStr r.offered}"
+
+/-- `E <entry> <resp>…` → one entry through `writeLines`;
+`S <entry> <entry> … | <resp>…` → a stream through `writeEntries`, replies joined by ` ; ` -/
+def handleSeq (toks : List String) : Option String :=
+  match toks with
+  | "E" :: e :: resps => do
+    let e ← parseEntry e
+    let script ← (resps.filter (· ≠ "")).mapM parseResp
+    pure (entryStr (writeLines e script))
+  | "S" :: rest => do
+    let es ← (rest.takeWhile (· ≠ "|")).mapM parseEntry
+    let script ← (((rest.dropWhile (· ≠ "|")).drop 1).filter (· ≠ "")).mapM parseResp
+    pure (" ; ".intercalate ((writeEntries es script).map entryStr))
+  | _ => none
+
 def handle (line : String) : String :=
   match line.trimAscii.toString.splitOn " " with
   | [] => "bad-op"
+  | "E" :: rest => (handleSeq ("E" :: rest)).getD "bad-op"
+  | "S" :: rest => (handleSeq ("S" :: rest)).getD "bad-op"
   | lensS :: respsS =>
-    let lens? : Option (List Nat) :=
-      if lensS == "-" then some [] else (lensS.splitOn ",").mapM (·.toNat?)
-    match lens?, (respsS.filter (· ≠ "")).mapM parseResp with
+    match parseLens lensS, (respsS.filter (· ≠ "")).mapM parseResp with
     | some lens, some script =>
       let r := writeAllVectored (mkBufs lens) script
-      let offered := "/".intercalate (r.offered.map fun sl => ",".intercalate (sl.map fun b => toString b.length))
-      s!"{outcomeStr r.outcome} {r.accepted.length} {r.calls} {if offered.isEmpty then "-" else offered}"
+      s!"{outcomeStr r.outcome} {r.accepted.length} {r.calls} {offeredStr r.offered}"
     | _, _ => "bad-op"
 
 end Driver.Vectored
